@@ -165,6 +165,10 @@ type coRunner struct {
 	maxGen      int32
 	syncLog     map[string]map[string][]assignmentTopic // "epoch/gen" -> member -> assignment received
 	preFailover *coGroupSnap
+	// C15 "members keep working": the Stable group as it was at the last failover; valid
+	// until something legitimately changes the membership (a join, a leave, an expiry that
+	// the harness's own bookkeeping of refresh times and session timeouts agrees with)
+	kw *coGroupSnap
 }
 
 func (r *coRunner) now() int64 { return time.Since(r.base).Milliseconds() }
@@ -453,7 +457,7 @@ func (r *coRunner) record(s coStep) {
 	if s.mem == nil && s.store == nil && (r.maxGen != 0 || len(r.sub) > 0) {
 		// the group is gone: a later group of the same name is a new incarnation
 		r.epoch++
-		r.maxGen, r.failoverIn, r.genSeen, r.fenced = 0, false, 0, map[string]bool{}
+		r.maxGen, r.failoverIn, r.genSeen, r.fenced, r.kw = 0, false, 0, map[string]bool{}, nil
 		r.sub, r.lastGen, r.sess, r.refresh, r.changedSub, r.hbRebal = map[string][]string{}, map[string]int32{}, map[string]int64{}, map[string]int64{}, map[string]bool{}, map[string]bool{}
 	}
 }
@@ -498,7 +502,8 @@ func (r *coRunner) exec(op coOp) {
 }
 
 func (r *coRunner) doJoin(ctx context.Context, op coOp) {
-	r.preFailover = nil // "keeps working" is judged on the first request after a failover
+	r.preFailover = nil
+	r.kw = nil // a join legitimately changes the membership / generation
 	id := r.slotID(op.M)
 	pre := r.view()
 	topics := coTopicStrings(op.Topics)
@@ -622,10 +627,10 @@ func (r *coRunner) doSync(ctx context.Context, op coOp) {
 		r.fail("C14", "leader-sync-rejected", fmt.Sprintf("sync of the leader %s after everybody rejoined generation %d answered %d", id, gen, resp.ErrorCode))
 	}
 	// ---- C15: a current member keeps working after failover ----
-	if r.preFailover != nil && r.preFailover.phase == groupStateStable && r.preFailover.member(id) != nil && r.preFailover.gen == gen {
+	if r.kw != nil && r.kw.member(id) != nil && r.kw.gen == gen {
 		r.tags["after-failover-sync"] = true
-		if resp.ErrorCode != protocol.NONE || !coSameAssign(st.reply.assign, r.preFailover.assignment(id)) {
-			r.fail("C15", "sync-differs-after-failover", fmt.Sprintf("sync of %s after failover: error %d assignment %v, before failover its assignment was %v", id, resp.ErrorCode, st.reply.assign, r.preFailover.assignment(id)))
+		if resp.ErrorCode != protocol.NONE || !coSameAssign(st.reply.assign, r.kw.assignment(id)) {
+			r.fail("C15", "sync-differs-after-failover", fmt.Sprintf("sync of %s after failover (no join, leave or due expiry since): error %d assignment %v, before failover its assignment was %v", id, resp.ErrorCode, st.reply.assign, r.kw.assignment(id)))
 		}
 	}
 	// ---- C12 ----
@@ -788,10 +793,10 @@ func (r *coRunner) doHeartbeat(ctx context.Context, op coOp) {
 		}
 	}
 	r.checkOffsetsUnchanged("C13", "heartbeat", offsBefore)
-	if r.preFailover != nil && r.preFailover.phase == groupStateStable && r.preFailover.member(id) != nil && r.preFailover.gen == gen {
+	if r.kw != nil && r.kw.member(id) != nil && r.kw.gen == gen {
 		r.tags["after-failover-hb"] = true
 		if resp.ErrorCode != protocol.NONE {
-			r.fail("C15", "heartbeat-rejected-after-failover", fmt.Sprintf("heartbeat of %s (Stable generation %d before failover) answered %d by the new coordinator", id, gen, resp.ErrorCode))
+			r.fail("C15", "heartbeat-rejected-after-failover", fmt.Sprintf("heartbeat of %s (Stable generation %d before failover; no join, leave or due expiry since) answered %d by the new coordinator", id, gen, resp.ErrorCode))
 		}
 	}
 	r.preFailover = nil
@@ -800,6 +805,7 @@ func (r *coRunner) doHeartbeat(ctx context.Context, op coOp) {
 
 func (r *coRunner) doLeave(ctx context.Context, op coOp) {
 	id := r.slotID(op.M)
+	r.kw = nil
 	req := kmsg.NewPtrLeaveGroupRequest()
 	req.Group = coGroup
 	req.MemberID = id
@@ -871,10 +877,10 @@ func (r *coRunner) doCommit(ctx context.Context, op coOp) {
 			r.fail("C13", "commit-lands-after-rebalance", fmt.Sprintf("OffsetCommit of %s (generation %d) released the coordinator lock before writing: %d operation(s) ran in between, after them the member is present=%v in generation %d, yet offset %d was written and answered NONE", id, gen, len(op.Inner), at.member(id) != nil, coGen(at), op.Off))
 		}
 	}
-	if r.preFailover != nil && r.preFailover.member(id) != nil && r.preFailover.gen == gen {
+	if r.kw != nil && r.kw.member(id) != nil && r.kw.gen == gen && !interleaved {
 		r.tags["after-failover-commit"] = true
 		if code != protocol.NONE {
-			r.fail("C15", "commit-rejected-after-failover", fmt.Sprintf("commit of %s (generation %d before failover) answered %d by the new coordinator", id, gen, code))
+			r.fail("C15", "commit-rejected-after-failover", fmt.Sprintf("commit of %s (Stable generation %d before failover; no join, leave or due expiry since) answered %d by the new coordinator", id, gen, code))
 		}
 	}
 	r.preFailover = nil
@@ -928,7 +934,18 @@ func (r *coRunner) doCleanup() {
 						key = "heartbeat-during-rebalance-ignored" // its last heartbeat was answered REBALANCE_IN_PROGRESS and did not count
 					}
 					r.fail("C43", key, fmt.Sprintf("member %s refreshed at %d ms (session %d ms, rebalance deadline %v, joined generation %d of %d) was removed by cleanup at %d ms", m.id, last, sess, coDeadline(pre), m.joingen, pre.gen, now))
+					if r.kw != nil && r.kw.member(m.id) != nil {
+						// C15: a member of the generation that was Stable at the failover, refreshed
+						// within its session timeout, is evicted by the new coordinator
+						r.fail("C15", "live-member-evicted-after-failover", fmt.Sprintf("member %s of Stable generation %d kept refreshing within its session timeout (last at %d ms, session %d ms) but the coordinator that took over evicted it at its cleanup tick at %d ms (it works from a stale lastHeartbeat / session timeout)", m.id, r.kw.gen, last, sess, now))
+					}
 				}
+			}
+		}
+		// a due expiry / lagger drop legitimately ends the generation
+		for _, m := range pre.members {
+			if last, ok := r.refresh[m.id]; ok && r.sess[m.id] > 0 && now-last > r.sess[m.id] {
+				r.kw = nil
 			}
 		}
 	}
@@ -973,6 +990,12 @@ func (r *coRunner) doFailover() {
 			}
 		}
 		r.preFailover = pre
+		if pre.phase == groupStateStable {
+			r.kw = pre
+			r.tags["failover-of-stable-group"] = true
+		} else {
+			r.kw = nil
+		}
 	}
 	r.record(st)
 }
@@ -1287,6 +1310,55 @@ func coGenCase(t *testing.T, rng *vRand) *coRunner {
 			pending = plan[1:]
 			return plan[0], true
 		}
+		// shape: a Stable group heartbeats regularly for longer than a session timeout, the
+		// coordinator fails over, some request makes the new coordinator load the group, its
+		// cleanup tick runs, then the members carry on with the generation they know
+		if v != nil && v.phase == groupStateStable && len(cur) >= 1 && rng.Chance(9) {
+			minSess := int64(-1)
+			for _, sl := range cur {
+				if m := v.member(r.ids[sl]); minSess < 0 || m.sess < minSess {
+					minSess = m.sess
+				}
+			}
+			step := minSess / 2
+			if step < 1 {
+				step = 1
+			}
+			var plan []coOp
+			for _, sl := range cur {
+				plan = append(plan, coOp{K: "hb", M: sl})
+			}
+			for round := 0; round < 3; round++ {
+				plan = append(plan, coOp{K: "adv", D: step})
+				for _, sl := range cur {
+					plan = append(plan, coOp{K: "hb", M: sl})
+				}
+			}
+			if rng.Chance(30) {
+				plan = append(plan, coOp{K: "adv", D: int64(rng.Range(1, int(step)))})
+			}
+			plan = append(plan, coOp{K: "failover"})
+			switch rng.Intn(4) { // what makes the new coordinator load the group
+			case 0:
+				plan = append(plan, coOp{K: "hb", M: -2})
+			case 1:
+				plan = append(plan, coOp{K: "hb", M: cur[rng.Intn(len(cur))], G: 1})
+			case 2:
+				plan = append(plan, coOp{K: "sync", M: cur[rng.Intn(len(cur))], G: 1})
+			default:
+				plan = append(plan, coOp{K: "commit", M: cur[rng.Intn(len(cur))], G: 1, T: rng.Intn(3), P: int32(rng.Intn(3)), Off: int64(rng.Range(1, 1000))})
+			}
+			plan = append(plan, coOp{K: "cleanup"})
+			for _, sl := range cur {
+				plan = append(plan, []coOp{{K: "hb", M: sl, G: 1}, {K: "sync", M: sl, G: 1}, {K: "commit", M: sl, G: 1, T: rng.Intn(3), P: int32(rng.Intn(3)), Off: int64(rng.Range(1, 1000))}}[rng.Intn(3)])
+			}
+			if rng.Bool() {
+				plan = append(plan, coOp{K: "adv", D: step}, coOp{K: "cleanup"})
+				plan = append(plan, coOp{K: "hb", M: cur[rng.Intn(len(cur))], G: 1})
+			}
+			pending = plan[1:]
+			return plan[0], true
+		}
 		// progress moves make complete rebalances frequent
 		if v != nil && rng.Chance(45) {
 			switch v.phase {
@@ -1530,6 +1602,11 @@ func coCorpus() []coCase {
 		// the same with a LeaveGroup instead of an expiry
 		{Parts: p, Seed: 18, Ops: []coOp{{K: "join", M: -1, Topics: []int{0}}, {K: "sync", M: 0}, {K: "join", M: -1, Topics: []int{0}}, {K: "join", M: 0, Topics: []int{0}}, {K: "sync", M: 0},
 			{K: "leave", M: 1}, {K: "failover"}, {K: "commit", M: 1, G: 1, T: 0, P: 1, Off: 5}, {K: "sync", M: 1, G: 1}, {K: "hb", M: 0, G: 1}}},
+		// C15 / C43: heartbeats for longer than the session timeout, failover, the new
+		// coordinator loads the group and ticks: nobody is evicted, everybody keeps working
+		{Parts: p, Seed: 19, Ops: []coOp{{K: "join", M: -1, Sess: 10000, Topics: []int{0}}, {K: "sync", M: 0}, {K: "join", M: -1, Sess: 10000, Topics: []int{0}}, {K: "join", M: 0, Sess: 10000, Topics: []int{0}}, {K: "sync", M: 0}, {K: "sync", M: 1},
+			{K: "adv", D: 5000}, {K: "hb", M: 0}, {K: "hb", M: 1}, {K: "adv", D: 5000}, {K: "hb", M: 0}, {K: "hb", M: 1}, {K: "adv", D: 5000}, {K: "hb", M: 0}, {K: "hb", M: 1},
+			{K: "failover"}, {K: "hb", M: 0, G: 1}, {K: "cleanup"}, {K: "hb", M: 1, G: 1}, {K: "sync", M: 1, G: 1}, {K: "commit", M: 0, G: 1, T: 0, P: 0, Off: 3}}},
 		// C14 / C43: laggers at the rebalance deadline
 		{Parts: p, Seed: 16, Ops: []coOp{{K: "join", M: -1, Sess: 40000, Reb: 5000, Topics: []int{0}}, {K: "sync", M: 0}, {K: "join", M: -1, Sess: 40000, Reb: 5000, Topics: []int{0}}, {K: "adv", D: 4999}, {K: "cleanup"}, {K: "adv", D: 1}, {K: "cleanup"},
 			{K: "join", M: 1, Sess: 40000, Reb: 5000, Topics: []int{0}}, {K: "sync", M: 1}}},
